@@ -653,6 +653,7 @@ class KMeansL1L2(KMeans):
         self.labels_ = best_labels
         self.inertia_ = best_inertia
         self.n_iter_ = best_n_iter
+        self.n_features_in_ = X.shape[1]
         return self
 
     def transform(self, X):
